@@ -640,4 +640,107 @@ theorem visitsScan_anchor (c : Cfg) (roots : List (Node × Faults)) :
   funext rf
   exact visitsRoot_anchor c rf.2 rf.1
 
+/-! ### 4. sanity: the definitions on small concrete trees (specification side only) -/
+
+section Examples
+
+/-- one extractor that wants every file; size limit 1 so that the lazy size stat happens; the matcher
+ignores an entry when its last path component is named by a pattern -/
+private def exC : Cfg :=
+  { nExt := 1, required := fun _ _ => true, extract := fun _ _ => {}, maxFileSize := 1,
+    giMatch := fun ps _ toks _ => ps.any fun pt => toks.getLast? = some pt.name }
+
+private def exT : Node := .dir none [("d", .dir none [])]
+private def exT2 : Node := .dir none [("a", .file .reg 1), ("b", .file .reg 1)]
+private def exT3 : Node := .dir none [("d", .dir none [("x", .file .reg 1)]), ("y", .file .reg 1)]
+private def exT4 : Node := .dir (some [⟨"d", false, false⟩]) [("d", .dir none [("x", .file .reg 1)]), ("y", .file .reg 1)]
+
+/-- the enumeration itself: every node, with its chain -/
+example : (allNodes [] [] exT3).map (fun r => (r.path, r.dirs.map (fun d => (d.path, d.childIdx)))) =
+    [([], []), (["d"], [([], 0)]), (["d", "x"], [([], 0), (["d"], 0)]), (["y"], [([], 1)])] := by decide
+
+/-- the auditor's witness: an entered directory that cannot be opened is ONE inode but TWO calls -/
+example : reachableInodes exC { openFail := fun p => p = ["d"] } [] [] exT = 2 ∧
+    visits exC { openFail := fun p => p = ["d"] } [] [] exT = 3 := by decide
+example : reachableInodesScan exC [(exT, { openFail := fun p => p = ["d"] })] = 2 ∧
+    visitsScan exC [(exT, { openFail := fun p => p = ["d"] })] = 3 := by decide
+
+/-- a failing read costs a call but is no inode, and hides the later entries: read 1 fails → root and `a` -/
+example : reachableInodes exC { readEntryFail := fun p k => p = [] ∧ k = 1 } [] [] exT2 = 2 ∧
+    visits exC { readEntryFail := fun p k => p = [] ∧ k = 1 } [] [] exT2 = 3 := by decide
+/-- the read that should have returned EOF fails: every entry is an inode, one extra call -/
+example : reachableInodes exC { readEntryFail := fun p k => p = [] ∧ k = 2 } [] [] exT2 = 3 ∧
+    visits exC { readEntryFail := fun p k => p = [] ∧ k = 2 } [] [] exT2 = 4 := by decide
+/-- a start path that does not exist / cannot be stat'ed: one call, no inode -/
+example : reachableInodesScan { exC with paths := [["q"]] } [(exT, {})] = 0 ∧
+    visitsScan { exC with paths := [["q"]] } [(exT, {})] = 1 := by decide
+example : reachableInodesScan exC [(exT, { statFail := fun p => p = [] })] = 0 ∧
+    visitsScan exC [(exT, { statFail := fun p => p = [] })] = 1 := by decide
+/-- nothing fails: calls = inodes (requested directory and requested file) -/
+example : reachableInodesScan { exC with paths := [["d"], ["y"]] } [(exT3, {})] = 3 ∧
+    visitsScan { exC with paths := [["d"], ["y"]] } [(exT3, {})] = 3 := by decide
+/-- an excluded directory is an inode (it is handed to `handleFile`), nothing below it is -/
+example : reachableInodes { exC with dirsToSkip := fun p => p = ["d"] } {} [] [] exT3 = 3 ∧
+    visits { exC with dirsToSkip := fun p => p = ["d"] } {} [] [] exT3 = 3 := by decide
+example : reachableInodes { exC with useGitignore := true } {} [] [] exT4 = 3 ∧
+    reachableInodes exC {} [] [] exT4 = 4 := by decide
+
+/-- told faults: the failing size stat of a visited file -/
+example : toldFaultScan exC [(exT3, { statFail := fun p => p = ["d", "x"] })] = true ∧
+    traversalFaultScan exC [(exT3, { statFail := fun p => p = ["d", "x"] })] = true := by decide
+/-- … is not told when the file is below an excluded directory (skip list, gitignore) -/
+example : toldFaultScan { exC with dirsToSkip := fun p => p = ["d"] } [(exT3, { statFail := fun p => p = ["d", "x"] })] = false ∧
+    traversalFaultScan { exC with dirsToSkip := fun p => p = ["d"] } [(exT3, { statFail := fun p => p = ["d", "x"] })] = false := by decide
+example : toldFaultScan { exC with useGitignore := true } [(exT4, { statFail := fun p => p = ["d", "x"] })] = false ∧
+    toldFaultScan exC [(exT4, { statFail := fun p => p = ["d", "x"] })] = true := by decide
+/-- the subtlety: below an unopenable directory (or after a failing read) the structural definition still
+ORs in the children; declaratively the only witness is the earlier failure itself -/
+example :
+    let f : Faults := { openFail := fun p => p = ["d"], statFail := fun p => p = ["d", "x"] }
+    ((allNodes [] [] exT3).filter (fun r => visitedRec exC f [] r && toldFault exC f [] r)).map (·.path) = [["d"]] ∧
+    ((allNodes [] [] exT3).filter (toldFault exC f [])).map (·.path) = [["d"], ["d", "x"]] ∧
+    toldFaultScan exC [(exT3, f)] = true ∧ traversalFaultScan exC [(exT3, f)] = true := by decide
+example :
+    let f : Faults := { readEntryFail := fun p k => p = [] ∧ k = 0, statFail := fun p => p = ["y"] }
+    ((allNodes [] [] exT3).filter (fun r => visitedRec exC f [] r && toldFault exC f [] r)).map (·.path) = [[]] ∧
+    toldFaultScan exC [(exT3, f)] = true := by decide
+/-- an unreadable `.gitignore` is told only with gitignore on; above a requested directory too -/
+example : toldFaultScan { exC with useGitignore := true } [(exT3, { openFail := fun p => p = ["d", ".gitignore"] })] = true ∧
+    toldFaultScan exC [(exT3, { openFail := fun p => p = ["d", ".gitignore"] })] = false ∧
+    toldFaultScan { exC with useGitignore := true, paths := [["d"]] } [(exT3, { openFail := fun p => p = [".gitignore"] })] = true ∧
+    toldFaultScan { exC with paths := [["d"]] } [(exT3, { openFail := fun p => p = [".gitignore"] })] = false := by decide
+example : toldFaultScan exC [(exT3, {})] = false := by decide
+
+/-! the hypotheses are satisfiable -/
+
+/-- context hypothesis of `traversalFault_anchor` / `visits_anchor`, below one directory, gitignore on -/
+example : ({ exC with useGitignore := true } : Cfg).useGitignore = true →
+    [giEntryOf {} ⟨[], some [⟨"d", false, false⟩], 0⟩] = [] ++ [(⟨[], some [⟨"d", false, false⟩], 0⟩ : DirInfo)].map (giEntryOf {}) :=
+  fun _ => rfl
+/-- hypotheses of the listing lemmas: an entered, openable directory whose first `k` reads succeeded -/
+example : excludedDir exC ([] ++ ([] : List DirInfo).map (giEntryOf {})) [] = false ∧
+    ({} : Faults).openFail [] = false ∧ ∀ j, j < 1 → ({} : Faults).readEntryFail [] j = false :=
+  ⟨by decide, rfl, fun _ _ => rfl⟩
+example : NoFaultsAt {} := ⟨fun _ => rfl, fun _ => rfl, fun _ _ => rfl⟩
+example : NoWalkFaults { statFail := fun p => p = ["y"] } := ⟨fun _ => rfl, fun _ _ => rfl⟩
+/-- hypothesis of `visitsScan_eq_reachable` with requested paths, two roots -/
+example : ∀ rf ∈ [(exT3, ({} : Faults)), (exT4, {})], NoFaultsAt rf.2 ∧
+    ∀ p ∈ ({ exC with paths := [["d"], ["y"]] } : Cfg).paths, lookup rf.1 p ≠ none := by
+  intro rf hrf
+  refine ⟨?_, ?_⟩
+  · simp only [List.mem_cons, List.not_mem_nil, or_false] at hrf
+    rcases hrf with h | h <;> subst h <;> exact ⟨fun _ => rfl, fun _ => rfl, fun _ _ => rfl⟩
+  · simp only [List.mem_cons, List.not_mem_nil, or_false] at hrf
+    rcases hrf with h | h <;> subst h <;> decide
+/-- hypothesis of `visitsScan_eq_reachable'`: a size stat may fail as long as no start path is affected -/
+example : ∀ rf ∈ [(exT3, ({ statFail := fun p => p = ["y"] } : Faults))], NoWalkFaults rf.2 ∧
+    (if exC.paths.isEmpty then rf.2.statFail [] = false
+     else ∀ p ∈ exC.paths, rf.2.statFail p = false ∧ lookup rf.1 p ≠ none) := by
+  intro rf hrf
+  simp only [List.mem_cons, List.not_mem_nil, or_false] at hrf
+  subst hrf
+  exact ⟨⟨fun _ => rfl, fun _ _ => rfl⟩, by decide⟩
+
+end Examples
+
 end Scalibr.Walk
